@@ -2,10 +2,13 @@ import Solvor.Common.Proto
 import Solvor.Mst.Model
 /-! Mst: line-protocol handler.
 
-request `["kruskal", n, edges, allowForest|null, implSol|null]`
+request `["kruskal", n, edges, allowForest|null, implSol|null, doCert]`
   edges   : list of `[u, v, w]` (weights scaled to integers by the harness)
   allowForest : `null` = keyword not passed: the default read from the source (`Gen.Mst.kruskalAllowForest`)
   implSol : the edge list returned by the implementation (same encoding) or `null`
+  doCert  : `false` skips `chkMinCert` (cubic in the number of edges; the harness turns it off for
+            the 1000–2500-node family, where minimality of the implementation's tree follows from
+            `chkSpanningTree` + "weight = weight of the mirror" + `kruskal_minimal`/`prim_minimal`)
 reply `[status, sol|null, obj|null, iters, ufSame, connected, comps, brute|null, valid, implChk]`
   status/sol/obj/iters : the mirror `kruskal`
   ufSame    : the parent/rank mirror `kruskalUF` returned the same `Result`
@@ -17,7 +20,7 @@ reply `[status, sol|null, obj|null, iters, ufSame, connected, comps, brute|null,
               `subsetB`, `chkSpanningTree`, `chkSpanningForest`, `chkMinCert` and `weight`
               evaluated on the implementation's edge list
 
-request `["prim", adj, start, implSol|null, edges]`
+request `["prim", adj, start, implSol|null, edges, doCert]`
   adj   : per node (dict-key order) the list of `[neighbour, w]`
   edges : the edge list given to `kruskal` for the same graph
 reply: same layout (`ufSame` is `true`, the edge list of the input is `arcs adj`) followed by
@@ -43,33 +46,34 @@ def toAdj? (v : Val) : Option Adj := do
 def ofEdge (e : Edge) : Val := Val.arr [Val.int e.u, Val.int e.v, Val.int e.w]
 def ofEdges (es : List Edge) : Val := Val.arr (es.map ofEdge)
 
-def implChk (n : Nat) (E : List Edge) : Option (List Edge) → Val
+def implChk (n : Nat) (E : List Edge) (doCert : Bool) : Option (List Edge) → Val
   | none => Val.null
   | some T => Val.arr [Val.bool (subsetB T E), Val.bool (chkSpanningTree n E T),
-      Val.bool (chkSpanningForest E T), Val.bool (chkMinCert E T), Val.int (weight T)]
+      Val.bool (chkSpanningForest E T), (if doCert then Val.bool (chkMinCert E T) else Val.null),
+      Val.int (weight T)]
 
-def reply (r : Result) (ufSame : Bool) (n : Nat) (E : List Edge) (impl : Option (List Edge))
+def reply (r : Result) (ufSame : Bool) (n : Nat) (E : List Edge) (impl : Option (List Edge)) (doCert : Bool)
     (extra : List Val := []) : String :=
   (Val.arr ([Val.str r.status.name, Val.ofOpt ofEdges r.sol, Val.ofOpt Val.int r.obj, Val.int r.iters,
     Val.bool ufSame, Val.bool (connectedB n E), Val.int (compCount n E),
     (if E.length ≤ 12 then Val.ofOpt Val.int (mstBrute n E) else Val.null),
-    Val.bool (decide (0 < n) && validB n E), implChk n E impl] ++ extra)).render
+    Val.bool (decide (0 < n) && validB n E), implChk n E doCert impl] ++ extra)).render
 
 def handle (line : String) : String :=
   match request line with
-  | some ("kruskal", [n, edges, af, impl]) =>
-    match n.toNat?, toEdges? edges, af.toOpt? Val.toBool?, impl.toOpt? toEdges? with
-    | some n, some E, some af, some impl =>
+  | some ("kruskal", [n, edges, af, impl, dc]) =>
+    match n.toNat?, toEdges? edges, af.toOpt? Val.toBool?, impl.toOpt? toEdges?, dc.toBool? with
+    | some n, some E, some af, some impl, some dc =>
       let af := af.getD Solvor.Gen.Mst.kruskalAllowForest
       let r := kruskal n E af
-      reply r (decide (kruskalUF n E af = r)) n E impl
-    | _, _, _, _ => err "bad arguments"
-  | some ("prim", [adj, start, impl, edges]) =>
-    match toAdj? adj, start.toNat?, impl.toOpt? toEdges?, toEdges? edges with
-    | some adj, some start, some impl, some E =>
-      reply (prim adj start) true adj.length (arcs adj) impl
+      reply r (decide (kruskalUF n E af = r)) n E impl dc
+    | _, _, _, _, _ => err "bad arguments"
+  | some ("prim", [adj, start, impl, edges, dc]) =>
+    match toAdj? adj, start.toNat?, impl.toOpt? toEdges?, toEdges? edges, dc.toBool? with
+    | some adj, some start, some impl, some E, some dc =>
+      reply (prim adj start) true adj.length (arcs adj) impl dc
         [Val.arr [Val.bool (goodAdjB adj), Val.bool (sameGraphB E (arcs adj))]]
-    | _, _, _, _ => err "bad arguments"
+    | _, _, _, _, _ => err "bad arguments"
   | _ => err "bad request"
 
 end Solvor.Mst
